@@ -57,6 +57,9 @@ pub struct MapCfg {
     pub op: Op,
     pub init0: Vec<(i64, i64)>,
     pub init1: Vec<(i64, i64)>,
+    /// put Cutoff::Never on the input variable(s): rewriting an equal map still reaches the operator
+    #[serde(default)]
+    pub input_never: bool,
 }
 
 trait Conv: Value {
@@ -349,6 +352,7 @@ pub fn gen_plan(prop: &str, seed: u64) -> Plan {
     };
     let init0 = rand_map(&mut r);
     let init1 = rand_map(&mut r);
+    let input_never = r.chance(1, 4);
     let n_actions = r.range(8, 45) as usize;
     let mut acts = vec![XAct::Observe { out: 0 }, XAct::Stabilise];
     let two = matches!(op, Op::Merge);
@@ -371,7 +375,7 @@ pub fn gen_plan(prop: &str, seed: u64) -> Plan {
     acts.push(XAct::Stabilise);
     acts.push(XAct::Stabilise);
     let knobs = Knobs { hash_seed: sched.next(), tie_break: if sched.chance(25, 100) { Some(sched.next()) } else { None }, max_height: None, crash_at: None, dense_reads: true, audit: true, stop_on: String::new() };
-    Plan { engine: "map".into(), actions: acts.into_iter().map(Action::X).collect(), knobs, extra: serde_json::json!({ "prop": prop, "cfg": MapCfg { ty, op, init0, init1 } }) }
+    Plan { engine: "map".into(), actions: acts.into_iter().map(Action::X).collect(), knobs, extra: serde_json::json!({ "prop": prop, "cfg": MapCfg { ty, op, init0, init1, input_never } }) }
 }
 
 struct Vars {
@@ -507,6 +511,19 @@ pub fn run_on_this_thread(plan: &Plan, keep_trace: bool) -> RunOutput {
                 o
             }
         };
+        if cfg.input_never {
+            if let Some((a, b)) = &vars.b {
+                a.set_cutoff(Cutoff::Never);
+                b.set_cutoff(Cutoff::Never);
+            }
+            if let Some(a) = &vars.rc {
+                a.set_cutoff(Cutoff::Never);
+            }
+            if let Some((a, b)) = &vars.ord {
+                a.set_cutoff(Cutoff::Never);
+                b.set_cutoff(Cutoff::Never);
+            }
+        }
         let downstream: Incr<B> = output.map(|m| [(0i64, m.len() as i64)].into_iter().collect::<B>());
         let outputs = [output, downstream];
         let mut observers: Vec<Option<(usize, Observer<B>, bool)>> = vec![];
